@@ -106,7 +106,12 @@ func main() {
 				fmt.Println(err)
 				os.Exit(2)
 			}
-			fmt.Printf("%d functions written\n", len(keys))
+			cl := norm.DeclaredClosures(p.Pkgs)
+			if err := os.WriteFile(filepath.Join(home, "reference", "known_closures.txt"), []byte(strings.Join(cl, "\n")+"\n"), 0o644); err != nil {
+				fmt.Println(err)
+				os.Exit(2)
+			}
+			fmt.Printf("%d functions, %d local closures written\n", len(keys), len(cl))
 			os.Exit(0)
 		case "--list":
 			var ids []string
